@@ -231,6 +231,12 @@ def run_stream(cmd, lines, flush=False):
     return results
 
 def run_impl(cfg, profile, lines):
+    d = os.environ.get("VERIF_DUMP_CASES")
+    if d and profile == "release":
+        # coverage measurement (bin/coverage): remember every line sent to the real code
+        os.makedirs(d, exist_ok=True)
+        with open(os.path.join(d, "%s.txt" % cfg), "a", encoding="latin-1") as fh:
+            fh.write("\n".join(lines) + "\n")
     return run_stream([hx_path(cfg, profile), "run"], lines)
 
 def run_model(cfg, profile, lines, jobs=None):
